@@ -179,6 +179,39 @@ def check_hosts(rec, rng, idx, of):
                 continue
             if ok3 != ok:
                 rec.violation("C20/Request.host-differs-from-get_host", f"{ok3} vs {ok}; {case}", case, monitor="label-reference")
+                continue
+            # the URL helpers validate as well, whichever part of the URL is asked for
+            from werkzeug.wsgi import get_current_url as wsgi_url
+
+            for kw in ({}, {"host_only": True}, {"root_only": True}, {"strip_querystring": True}, {"host_only": True, "strip_querystring": True}):
+                try:
+                    wsgi_url(env, trusted_hosts=tl, **kw)
+                    ok4 = True
+                except SecurityError:
+                    ok4 = False
+                except Exception as e:  # noqa: BLE001
+                    rec.violation(f"C20/get_current_url-raises-{type(e).__name__}", f"{e!r}; {case}", case, monitor="exception-type")
+                    break
+                if ok4 != ok:
+                    rec.violation("C20/untrusted-host-accepted" if ok4 else "C20/listed-host-rejected", f"wsgi.get_current_url(environ, trusted_hosts={tl!r}, **{kw!r}) accepted={ok4}, get_host accepted={ok}; {case}", case, monitor="label-reference")
+                    break
+    # an empty Host header is a Host header: it is validated (and refused), whatever SERVER_NAME says
+    for tl in (["localhost"], [".localhost", "127.0.0.1"], ["srv.example"]):
+        for server in ("localhost", "127.0.0.1", "srv.example", "a.localhost"):
+            env = {"REQUEST_METHOD": "GET", "wsgi.url_scheme": "http", "HTTP_HOST": "", "SERVER_NAME": server, "SERVER_PORT": "80", "PATH_INFO": "/", "SCRIPT_NAME": "", "QUERY_STRING": ""}
+            case = {"part": "host", "host": "", "trusted": tl, "server_name": server}
+            rec.case()
+            rec.nontrivial(("empty-host", tuple(tl), server))
+            rec.observe("empty_host_headers")
+            rq = Request(env)
+            rq.trusted_hosts = tl
+            try:
+                hv = rq.host
+                rec.violation("C20/untrusted-host-accepted", f"an empty Host header was accepted as {hv!r} (SERVER_NAME {server!r}, trusted {tl!r})", case, monitor="label-reference")
+            except SecurityError:
+                pass
+            except Exception as e:  # noqa: BLE001
+                rec.violation(f"C20/Request.host-raises-{type(e).__name__}", f"{e!r}; {case}", case, monitor="exception-type")
 
 
 # ---------------------------------------------------------------------------------------------
